@@ -1306,6 +1306,11 @@ class PGPMessage(Armorable, PGPObject):
 
         if sessionkey is None:
             sessionkey = cipher_algo.gen_key()
+        elif len(sessionkey) != cipher_algo.key_size // 8:
+            # the backend takes several key lengths for one cipher class (8/16/24 for Triple-DES, 16/24/32 for AES,
+            # 4..56 for Blowfish): the key must be as long as the algorithm octet written next to it says
+            raise PGPEncryptionError("A session key for {:s} must be {:d} octets long, not {:d}"
+                                     "".format(cipher_algo.name, cipher_algo.key_size // 8, len(sessionkey)))
         skesk.encrypt_sk(passphrase, sessionkey)
         del passphrase
 
@@ -2717,6 +2722,10 @@ class PGPKey(Armorable, ParentRef, PGPObject):
 
         if sessionkey is None:
             sessionkey = cipher_algo.gen_key()
+        elif len(sessionkey) != cipher_algo.key_size // 8:
+            # the recipient cuts the key out of the decrypted value by the key size of the algorithm octet
+            raise PGPEncryptionError("A session key for {:s} must be {:d} octets long, not {:d}"
+                                     "".format(cipher_algo.name, cipher_algo.key_size // 8, len(sessionkey)))
 
         # set up a new PKESessionKeyV3
         pkesk = PKESessionKeyV3()
